@@ -269,6 +269,8 @@ fn prec(c: &J) -> u8 {
 
 fn operand_text(o: &J) -> Result<String, String> {
     match tag(o) {
+        // redundant parentheses around a lone operand of a comparison
+        "par" => Ok(format!("({})", operand_text(&o["e"])?)),
         "cast" => Ok(format!(
             "{}({})",
             o["k"].as_str().ok_or("cast kind")?,
